@@ -52,3 +52,15 @@ func (module *KafkaCluster) VerifStartMainLoop(client helpers.SaramaClient, offs
 
 // VerifStop is the module's real Stop.
 func (module *KafkaCluster) VerifStop() error { return module.Stop() }
+
+// VerifConfigureKafkaCluster runs the real Configure of a fresh cluster module on the given configuration root (viper).
+func VerifConfigureKafkaCluster(app *protocol.ApplicationContext, name, configRoot string) *KafkaCluster {
+	module := &KafkaCluster{App: app, Log: zap.NewNop()}
+	module.Configure(name, configRoot)
+	return module
+}
+
+// VerifSettings reports the refresh intervals Configure left in the module.
+func (module *KafkaCluster) VerifSettings() (offsetRefresh, topicRefresh, groupsReaperRefresh int) {
+	return module.offsetRefresh, module.topicRefresh, module.groupsReaperRefresh
+}
